@@ -115,7 +115,7 @@ class Prop(BaseProp):
         wit["rst"] = o.value
         nv = len(res.violations)
         page = rstscan.Page(o.value)
-        matched = oracle.compare_sequence(res, exp, oracle.observed_top(page), "top")
+        matched = oracle.compare_sequence(res, exp, oracle.observed_top(page), "top", b.unasserted_impl_names)
 
         def depth_of(it, d=0):
             return max([d] + [depth_of(x, d + 1) for x in (it.body or []) if x.kind == "cpp_class"])
